@@ -486,7 +486,14 @@ def MState.step (m : MState) (st : IStep) : MState :=
           | some _, .join .. => m.onRequest c r st.ds .connError
           | _, _ => m
         m1.onEnd c st.ds "error-departure"
-      | .panic site => m.bad "C08" "handler-panic" (flat s!"{site} on {reprStr r}")
+      | .panic site =>
+        let m := m.bad "C08" "handler-panic" (flat s!"{site} on {reprStr r}")
+        -- a participant's request with a request id whose handler never came back has not been answered
+        match m.whereIs c, r with
+        | some _, .updatePose .. | some _, .custom .. | some _, .compUpdate .. | some _, .quadSample ..
+        | some _, .undecodable .. | some _, .unknown .. | some _, .pingResp .. => m
+        | some _, _ => m.bad "C04" "request-unanswered" (flat s!"{site} on {reprStr r}")
+        | none, _ => m
     | .handle _ none _ => if st.ds.isEmpty then m else m.bad "C03" "delivery-without-cause" (flat s!"{reprStr st.ds}")
     | .disconnect c => m.onEnd c st.ds "disconnect-departure"
     | .recv c _ =>
